@@ -18,7 +18,7 @@ import (
 )
 
 var (
-	verifFlags = regexp.MustCompile(` *flags=\([^)]*\)`)
+	verifFlags = regexp.MustCompile(`(?m)[ \t]*(?:flags=\([^)]*\))?[ \t]*\{[ \t]*$`)
 	verifMu    sync.Mutex
 	verifSeq   int
 	verifOut   *os.File
@@ -75,7 +75,7 @@ func verifListing(root string) []map[string]string {
 				h := sha256.Sum256(b)
 				e["h"] = hex.EncodeToString(h[:])
 				// identity of the content with every flags=(...) clause masked
-				m := sha256.Sum256(verifFlags.ReplaceAll(b, nil))
+				m := sha256.Sum256(verifFlags.ReplaceAll(b, []byte("{")))
 				e["hm"] = hex.EncodeToString(m[:])
 			}
 		}
